@@ -264,3 +264,78 @@ def run(index, rep, tier):
         enum = [l for l in ast.walk(fd.node) if isinstance(l, ast.For) and isinstance(l.iter, ast.Call) and call_name(l.iter) == "enumerate"]
         ok = bool(wt) and bool(enum) and norm(wt[0].value.slice) in names_in(enum[0].target) and norm(wt[0].value.value) == "weights"
         rep.check(ok, "R16.4", fd.qualname, "weight index", fn_where(fd), "the weight applied is weights[<character index of the enumerate>]", "fitch_down_pass indexes weights with something other than the character index")
+
+    # ---- R16.10 a state's derived fields are written by the state alone
+    with rep.section("R16.10"):
+        rep.rule("R16.10", "a state's membership and what is derived from it are written through the state's own interface: `_member_states` and the caches computed from it (`_fundamental_*`, `_partials_vector`) are stored only by StateIdentity's own methods through `self` - the setter drops every derived cache, a hand-written subset elsewhere drifts from the list of caches the class actually keeps")
+        SI = "dendropy.datamodel.charstatemodel.StateIdentity"
+        si = index.klass(SI)
+        own = set()
+        for f in si.methods.values():
+            for w in writes_in(f.node):
+                if w.base is not None and norm(w.base) == "self" and (w.attr == "_member_states" or w.attr.startswith("_fundamental_") or w.attr == "_partials_vector"):
+                    own.add(w.attr)
+        if len(own) < 5:
+            raise AnalysisError("R16.10: StateIdentity's derived fields were not recognised (%s)" % sorted(own))
+        n10 = 0
+        for m in sorted(index.modules):
+            if not m.startswith("dendropy.") or ".test" in m or ".legacy" in m:
+                continue
+            for fi in index.functions_in_module(m):
+                for w in writes_in(fi.node):
+                    if w.attr not in own:
+                        continue
+                    n10 += 1
+                    ok = fi.cls is not None and w.base is not None and norm(w.base) == "self" and w.via_alias is None   # a class's own field of that name (the alphabet keeps a _fundamental_states list of its own)
+                    rep.check(ok, "R16.10", fi.qualname, "`%s.%s` written from outside the state" % (w.base_text, w.attr), fn_where(fi, w.stmt),
+                              "%s: %s.%s written by the state itself" % (fi.name, w.base_text, w.attr),
+                              "%s writes `%s.%s` directly: the state's setter is the one place that knows every cache derived from the membership (fundamental states, symbols, indexes with and without gaps as missing, partials); a write that bypasses it leaves some of them describing the old membership, and scores computed after the alphabet was extended use the stale state sets" % (fi.qualname, w.base_text, w.attr))
+        rep.floor("R16.10", "writes of derived state fields", 8, n10)
+
+    # ---- R16.11 the scoring passes write only into lists they made
+    with rep.section("R16.11"):
+        rep.rule("R16.11", "the scoring passes write only into lists they made themselves: in dendropy.model.parsimony an element/slice store or mutator call goes to a name that is bound, everywhere in the function, to a freshly built container (or to the documented out-parameter score_by_character_list) - state-set lists taken from a node or from taxon_state_sets_map are shared with the caller and with other trees and are only ever rebound")
+        n11 = 0
+        FRESH_CALLS = {"list", "set", "dict", "tuple", "frozenset", "sorted", "_NodeStateSetMap"}
+
+        def fresh(v):
+            return isinstance(v, (ast.List, ast.Dict, ast.Set, ast.ListComp, ast.SetComp, ast.DictComp, ast.Tuple)) or (isinstance(v, ast.Call) and call_name(v) in FRESH_CALLS) or (isinstance(v, ast.BinOp) and isinstance(v.op, ast.Mult) and (fresh(v.left) or fresh(v.right))) or (isinstance(v, ast.Subscript) and isinstance(v.slice, ast.Slice))
+        for fi in index.functions_in_module("dendropy.model.parsimony"):
+            binds = {}
+            for st in walk_no_nested(fi.node):
+                if isinstance(st, ast.Assign):
+                    for t in st.targets:
+                        if isinstance(t, ast.Name):
+                            binds.setdefault(t.id, []).append(st.value)
+                        elif isinstance(t, (ast.Tuple, ast.List)):
+                            for e in t.elts:
+                                if isinstance(e, ast.Name):
+                                    binds.setdefault(e.id, []).append(None)
+                elif isinstance(st, (ast.For, ast.comprehension)):
+                    for x in ast.walk(st.target):
+                        if isinstance(x, ast.Name):
+                            binds.setdefault(x.id, []).append(None)
+            sites = []
+            for st in walk_no_nested(fi.node):
+                tg = []
+                if isinstance(st, ast.Assign):
+                    tg = st.targets
+                elif isinstance(st, ast.AugAssign):
+                    tg = [st.target]
+                elif isinstance(st, ast.Delete):
+                    tg = st.targets
+                for t in tg:
+                    if isinstance(t, ast.Subscript) and isinstance(t.value, ast.Name):
+                        sites.append((t.value.id, "%s[...] stored" % t.value.id, st))
+                if isinstance(st, ast.Call) and isinstance(st.func, ast.Attribute) and st.func.attr in MUTATORS and isinstance(st.func.value, ast.Name):
+                    sites.append((st.func.value.id, "%s.%s()" % (st.func.value.id, st.func.attr), st))
+            for nm, what, st in sites:
+                if nm == "self" or nm == (fi.node.args.kwarg.arg if fi.node.args.kwarg else None):
+                    continue
+                n11 += 1
+                vals = binds.get(nm)
+                ok = nm == "score_by_character_list" or (bool(vals) and all(v is not None and fresh(v) for v in vals))
+                rep.check(ok, "R16.11", fi.qualname, "in-place write to `%s`, which the function did not build" % nm, fn_where(fi, st),
+                          "%s: %s goes to a list built here" % (fi.name, what),
+                          "%s: %s writes in place into `%s`, which is %s: state-set lists read from a node attribute or from taxon_state_sets_map are the caller's (the same list serves every tree scored against the matrix and the matrix-derived map itself), so refilling one corrupts the leaf states of later scoring calls" % (fi.qualname, what, nm, "a parameter" if not vals else "bound to `%s`" % "`, `".join(sorted({norm(v)[:40] if v is not None else "an unpacked value" for v in vals}))))
+        rep.floor("R16.11", "in-place writes in the parsimony module", 4, n11)
